@@ -92,7 +92,8 @@ def run(ctx):
 
     ctx.rule = ("one case = one teardown iteration: fresh Transport (TCP or UDP) + raw peers + callers parked in connectSync (black hole), "
                 "receiveSync and a setReadMode flush held in a slow data callback + racers entering those calls around the teardown moment "
-                "+ storm threads (send/close/addListener/connect/getStats) + one of 7 teardown kinds. distinct = hash(teardown kind, proto, "
+                "+ short-timeout 'edge' callers whose expiry is aimed at the teardown moment and who are held 0.2-5 ms after every other mutex release "
+                "(pthread_mutex_unlock interposer, asan/plain builds) + storm threads (send/close/addListener/connect/getStats) + one of 7 teardown kinds. distinct = hash(teardown kind, proto, "
                 "cycles, which parked kinds were actually parked when teardown hit, how each blocked call returned, racers?, storm?, slow onClose?, cv delay?)")
     ctx.assumptions = [
         "a call still blocked 15 s after teardown began is stranded (parked callers use 60 s timeouts; the iteration is re-run alone before a verdict)",
@@ -108,7 +109,10 @@ def run(ctx):
            "drop_user_dtor_ran_on_user_thread", "after_stop_operation_sets_checked", "restarts_after_stop", "fence_checks",
            "impl_freed", "storm_ops_issued_after_teardown_began", "callbacks_entered_while_stop_in_progress",
            "send_false", "addListener_refused", "connect_refused", "condvar_prepark_delays",
-           "connectSync_returned_ShuttingDown_parked", "receiveSync_returned_PeerClosed_parked", "receiveSync_returned_ShuttingDown_parked"]
+           "connectSync_returned_ShuttingDown_parked", "receiveSync_returned_PeerClosed_parked", "receiveSync_returned_ShuttingDown_parked",
+           "edge_callers_started", "post_unlock_holds", "edge_connectSync_returned_Timeout", "edge_connectSync_returned_ShuttingDown",
+           "edge_receiveSync_returned_Timeout", "teardown_began_with_connectSync_caller_past_its_expiry_not_yet_returned",
+           "teardown_began_with_receiveSync_caller_past_its_expiry_not_yet_returned"]
     req += [f"iterations:{t}:{p}" for t in TD for p in ("tcp", "udp")]
     ctx.require_obs(*req)
 
